@@ -412,7 +412,7 @@ func Normalise(x interface{}) interface{} {
 }
 
 // setKeys are the members of the canonical form that are sets.
-var setKeys = map[string]bool{"ifaces": true, "members": true, "locs": true, "dirs": true}
+var setKeys = map[string]bool{"ifaces": true, "members": true, "locs": true, "dirs": true, "possible": true}
 
 // SortSets sorts set-valued members (after Normalise).
 func SortSets(x interface{}) interface{} {
